@@ -21,6 +21,12 @@ objs=[f('-')*x[0]('-')*dS]'''),
     corpus._c("c03_twosided_hex", '''
 m=mesh("hexahedron"); V=space(m,"DQ",1); u,v=TrialFunction(V),TestFunction(V); f=Coefficient(V)
 objs=[avg(f)*jump(u)*jump(v)*dS]'''),
+    corpus._c("c03_two_rules_last_onesided", '''
+m=mesh("triangle"); V=space(m,"DP",1); u,v=TrialFunction(V),TestFunction(V)
+objs=[inner(jump(u),jump(v))*dS(degree=2) + u('+')*v('+')*dS(degree=1)]'''),
+    corpus._c("c03_two_rules_first_onesided", '''
+m=mesh("tetrahedron"); V=space(m,"DP",1); u,v=TrialFunction(V),TestFunction(V)
+objs=[u('-')*v('-')*dS(degree=1) + inner(jump(u),jump(v))*dS(degree=3)]'''),
     corpus._c("c03_constant_only_quad", '''
 m=mesh("quadrilateral"); k=Constant(m)
 objs=[k*dS]'''),
